@@ -222,7 +222,7 @@ def transmit_and_check(ctx, ch, get_resp, kind, mimo, rng, tag, pos, pathloss=No
     if domain == "time":
         N = int(rng.choice([1, 2, 3, 7, 30, 100, 300])) if rng.random() < 0.5 else \
             int(rng.integers(1, 120))
-        if rng.random() < 0.03 and D <= 16:
+        if rng.random() < 0.03 and D <= 16 and ctx.case < 20000:     # (bounded number per run)
             N = int(rng.integers(4000, 40000))        # a whole frame in one call
         x = rand_c(rng, nin, N) if mimo else rand_c(rng, N)
         if mimo and nin == 1 and rng.random() < 0.5:
